@@ -521,3 +521,55 @@ Proof.
         inversion Hrun; subst st' e; apply Hstop; auto; discriminate.
 Qed.
 
+(* ---------------------------------------------------------------- the initial state *)
+Lemma count_len_empty : forall base n l, l <> 0 -> count_len aempty base n l = 0.
+Proof.
+  intros base n l Hl. induction n as [|k IH]; cbn [count_len]; [reflexivity|].
+  rewrite IH, aget_empty, hc_len_0. replace (0 =? l) with false by lia. reflexivity.
+Qed.
+
+Lemma ex_dec_empty : forall n L, ex_dec aempty n L = 0.
+Proof.
+  intros n L. induction n as [|k IH]; cbn [ex_dec]; [reflexivity|]. cbv zeta.
+  rewrite IH, aget_empty, hc_len_0.
+  destruct (N.eqb_spec 0 L) as [E|E].
+  - subst L. reflexivity.
+  - reflexivity.
+Qed.
+
+Lemma ex_inc_empty : forall n L, ex_inc aempty n L = 0.
+Proof.
+  intros n L. induction n as [|k IH]; cbn [ex_inc]; [reflexivity|]. cbv zeta.
+  rewrite IH, aget_empty, hc_len_0. reflexivity.
+Qed.
+
+Lemma RLI_init : forall split b,
+  (257 <= split <= 286)%Z ->
+  RLI split (mkRL b aempty aempty aempty aempty 0%Z (-1)%Z false).
+Proof.
+  intros split b Hs. unfold RLI. cbn [rl_inDist rl_curr rl_h rl_lc rl_dc rl_ex].
+  split; [intros _; lia|]. split; [intros Hc; discriminate|].
+  split; [intros i; rewrite aget_empty; exact ent_ok_0|].
+  split; [intros p _; apply aget_empty|].
+  split; [intros l Hl; rewrite aget_empty, count_len_empty by lia; reflexivity|].
+  split; [intros l Hl; rewrite aget_empty, count_len_empty by lia; reflexivity|].
+  split; [intros L; rewrite aget_empty; lia|].
+  intros L _. rewrite aget_empty, ex_dec_empty, ex_inc_empty. reflexivity.
+Qed.
+
+Lemma RLI_post : forall split st,
+  RLI split st -> rl_post (rl_h st) (rl_lc st) (rl_dc st) (rl_ex st).
+Proof.
+  intros split st (P1 & P2 & P3 & P4 & P5 & P6 & P7 & P8).
+  assert (Hh : huff_ok (rl_h st)) by (intros i; apply P3).
+  split.
+  - split; [exact Hh|]. split; [exact P5|]. split; [exact P7|exact P8].
+  - split; [exact Hh|]. split; [exact P6|].
+    pose proof (count_len_sum15 (rl_h st) 286 30) as Hsum. change (N.of_nat 30) with 30 in Hsum.
+    unfold sum15.
+    rewrite (P6 1), (P6 2), (P6 3), (P6 4), (P6 5), (P6 6), (P6 7), (P6 8), (P6 9), (P6 10),
+            (P6 11), (P6 12), (P6 13), (P6 14), (P6 15) by lia.
+    exact Hsum.
+Qed.
+
+(* (snapshot truncated here: the final theorem readLitDistLens_spec is not needed) *)
